@@ -582,9 +582,10 @@ class Mp4Atom(ObjectWithFields):
                 options.log.debug('Failed to read atom type. pos=%d', position)
             return None
         if size == 0:
+            # box extends to the end of the file. The size of a box includes its header
             pos = src.tell()
             src.seek(0, 2)  # seek to end
-            size = src.tell() - pos
+            size = src.tell() - position
             src.seek(pos)
         elif size == 1:
             size_ext = src.read(8)
